@@ -227,6 +227,19 @@ func init() {
 				steps = append(steps, "range "+c12Src(fset, x.X))
 			}
 		}
+		// is the whole of handleResponse one critical section? (Lock first, deferred Unlock second)
+		var beforeLock []string
+		lockAt := -1
+		for i, st := range steps {
+			if st == "mutex.Lock" {
+				lockAt = i
+				break
+			}
+			beforeLock = append(beforeLock, st)
+		}
+		atomic := lockAt == 0 && len(steps) > 1 && steps[1] == "defer mutex.Unlock"
+		fmt.Fprintf(&sb, "/-- statements of handleResponse that run before ctx.mutex is taken -/\ndef handleResponseBeforeLock : List String := %s\n", LeanStrList(beforeLock))
+		fmt.Fprintf(&sb, "/-- handleResponse = `ctx.mutex.Lock(); defer ctx.mutex.Unlock(); ...`: one critical section -/\ndef handleResponseAtomic : Bool := %v\n", atomic)
 		fmt.Fprintf(&sb, "/-- top-level statements of handleResponse, in order -/\ndef handleResponseSteps : List String := %s\n", LeanStrList(steps))
 		// the per-series skip
 		skipEmpty := false
